@@ -231,5 +231,18 @@ PROPS["C11"] = {
     "technique": "runtime monitoring: wire-level frame validator + handler-side event log vs script model; differential check of blocking vs non-blocking receive",
 }
 
+PROPS["C12"] = {
+    "level": "exploration",
+    "engines": [
+        {"bin": "hv", "args": ["c12"]},
+    ],
+    "min": {"quick": {"scenarios": 60, "handler_events_observed": 1500, "messages_dispatched_exactly_once": 800, "broadcasts": 50, "disconnects_graceful": 150, "single_handler_thread_scenarios": 25, "unicasts_delivered": 100},
+            "thorough": {"scenarios": 780}},
+    "assumptions": [],
+    "level_text": "Scenarios of several reference WebSocket clients with random scripts run against the real AsyncWebsocketApp (linked to a real App) under varied pool sizes, poll intervals, heartbeat settings and failpoint delays; the handler-side event log and the frames each client received are checked for exactly-once connect/message/disconnect, addressing of unicasts, coverage of broadcasts, per-client order (single handler thread) and termination of run.",
+    "level_note": "Trusted: the scenario oracle in c12.rs, hvcommon::wsref; bounded waits (10 s for run to return).",
+    "technique": "runtime monitoring: offline checker over handler event log + per-client frame logs (exactly-once, addressing, ordering) under failpoint-perturbed poll loop",
+}
+
 # properties without a check, with the reason (kept current)
 NOT_CLAIMED = {}
